@@ -51,7 +51,7 @@ def bcf_proof():
     return Proof('backup_copy_file', impl='contracts/fileio/backup.impl.cpp', spec='contracts/fileio/backup.spec.c',
                  enforce='backup_copy_file/backup_copy_file_contract', replace=['%s/%s_contract' % (f, f) for f in env], loops=L_bcf, canaries=2,
                  assumed=['%s_contract (libc over the ghost file system)' % f for f in env] + ['MD5::Calc = an arbitrary fixed digest g_md5'],
-                 functions=['backup.cpp:backup_copy_file', 'unc_ctype.cpp:unc_isxdigit', 'unc_ctype.cpp:unc_tolower'], timeout=1200,
+                 functions=['backup.cpp:backup_copy_file', 'unc_ctype.cpp:unc_isxdigit', 'unc_ctype.cpp:unc_tolower'], timeout=1200, fallback_unwind=130,
                  expect=['backup_copy_file_contract.postcondition', 'loop_decreases'], drop_flags=['--conversion-check'],
                  mutants=[('md5_compare_inverted', r'if \(memcmp\(md5_str, md5_str_in, 32\) == 0\)', 'if (memcmp(md5_str, md5_str_in, 32) != 0)', 'postcondition'),
                           ('fwrite_unchecked', r'if \(  retval == 1\n         \|\| data.empty\(\)\)', 'if (true)', 'postcondition'),
